@@ -539,12 +539,12 @@ def table_phase(rep, fnd, all_dumps, items, gtext_of):
             continue
         for gi, a in zip(tags, ans):
             n_tab += 1
-            if a == [True, True]:
+            if a == [True, True, True]:
                 n_tab_ok += 1
                 continue
-            which = "sound_rn_b" if not a[0] else "complete_rn_b"
+            which = "sound_rn_b" if not a[0] else "complete_rn_b" if not a[1] else "rn_complete_b"
             fnd.add("rn-table-" + which, "the real LALR_RN table does not pass %s (theorem %s no longer applies to it)" %
-                    (which, "nlr_sound" if not a[0] else "nlr_complete"),
+                    (which, "nlr_sound" if not a[0] else "nlr_complete" if not a[1] else "rn_reductions_present"),
                     dict(grammar=gtext_of(gi), algo="GLR", table="LALR_RN", flags=FLAGS,
                          obligation="Spec.ValidatorsRN.%s / Properties.C03.nlr_exact" % which), found_input=False)
     # runs of the machine vs the real forest
